@@ -311,8 +311,28 @@ pub fn run_c07(tier: Tier) -> i32 {
                 }
                 other => fails.push(("C07-default-deadline".into(), format!("request without deadline rejected: {:?}", other.map(|_| ()).map_err(|e| e.to_string())))),
             }
+            // two requests with the same deadline written 600 ms apart (a context used twice): each
+            // carries the time left when IT is written (seeded change C07l cached the first value)
+            {
+                let mut ctx = tarpc::context::current();
+                ctx.deadline = now + std::time::Duration::from_secs(60);
+                let left = |js: &str| -> Option<std::time::Duration> {
+                    let v: serde_json::Value = serde_json::from_str(js).ok()?;
+                    let d = &v["Request"]["context"]["deadline"];
+                    Some(std::time::Duration::new(d["secs"].as_u64()?, d["nanos"].as_u64()? as u32))
+                };
+                let m = |id| tarpc::ClientMessage::Request(tarpc::Request { context: ctx, id, message: 3u32 });
+                let first = serde_json::to_string(&m(1)).ok().and_then(|j| left(&j));
+                tokio::time::advance(std::time::Duration::from_millis(600)).await;
+                let second = serde_json::to_string(&m(2)).ok().and_then(|j| left(&j));
+                let again = serde_json::to_string(&m(3)).ok().and_then(|j| left(&j));
+                if first != Some(std::time::Duration::from_secs(60)) || second != Some(std::time::Duration::from_millis(59_400)) || again != second {
+                    fails.push(("C07-deadline-stretched".into(), format!("one context used for three JSON requests, the second and third written 600 ms after the first: time left on the wire {first:?}, {second:?}, {again:?} (expected 60 s, 59.4 s, 59.4 s)")));
+                }
+            }
             // ... and a deadline that IS there, in the documented format, written by a peer that is
             // not this tree, is the deadline (not the default): 500 ms, 60 s, 1 hour
+            let now = tokio::time::Instant::now().into_std();
             for (secs, nanos) in [(0u64, 500_000_000u32), (60, 0), (3600, 0)] {
                 let js = format!(r#"{{"Request":{{"context":{{"deadline":{{"secs":{secs},"nanos":{nanos}}},"trace_context":{{"trace_id":[1,0,0,0,0,0,0,0,0,0,0,0,0,0,0,0],"span_id":2,"sampling_decision":"Sampled"}}}},"id":9,"message":3}}}}"#);
                 match serde_json::from_str::<tarpc::ClientMessage<u32>>(&js) {
